@@ -264,8 +264,9 @@ class _mark_ignore_name(ast.NodeTransformer):
 
 class _rewrite_captured_vars(ast.NodeTransformer):
     def __init__(self, cv: inspect.ClosureVars):
-        self._lookup_dict: Dict[str, Any] = dict(cv.nonlocals)
-        self._lookup_dict.update(cv.globals)
+        # A closure variable hides a module global of the same name, as in python itself.
+        self._lookup_dict: Dict[str, Any] = dict(cv.globals)
+        self._lookup_dict.update(cv.nonlocals)
         self._ignore_stack = []
 
     def visit_Name(self, node: ast.Name) -> Any:
